@@ -23,6 +23,7 @@ type EnvOpt struct {
 	ServerOpts []jsonrpc.ServerOption
 	Rev        bool // server gets WithReverseClient[svc.RevAPI]("R")
 	NoSvc      bool
+	Wrap       func(http.Handler) http.Handler // middleware in front of the RPC server (e.g. auth.Handler)
 }
 
 // Env is a server (+ optional hostile proxy) that clients can be attached to.
@@ -52,7 +53,11 @@ func NewEnv(o EnvOpt) *Env {
 		e.mu.Lock()
 		e.cancels = append(e.cancels, cancel)
 		e.mu.Unlock()
-		e.RPC.ServeHTTP(w, r.WithContext(ctx))
+		var h http.Handler = e.RPC
+		if o.Wrap != nil {
+			h = o.Wrap(e.RPC)
+		}
+		h.ServeHTTP(w, r.WithContext(ctx))
 	}))
 	if !o.NoProxy {
 		e.Px = wsproxy.New(e.TS.Listener.Addr().String())
@@ -91,6 +96,7 @@ type ClientOpt struct {
 	RevAlias  map[string]string // client-side handler aliases; nil = {"R.AliasIdent": "R.Ident"}
 	Direct    bool              // bypass the proxy
 	Ctx       context.Context
+	Header    http.Header // extra headers of the client's HTTP requests / websocket handshake
 }
 
 type Client struct {
@@ -129,7 +135,7 @@ func (e *Env) NewClient(o ClientOpt) (*Client, error) {
 	if cctx == nil {
 		cctx = context.Background()
 	}
-	closer, err := jsonrpc.NewMergeClient(cctx, addr, "S", []interface{}{&c.Client}, nil, opts...)
+	closer, err := jsonrpc.NewMergeClient(cctx, addr, "S", []interface{}{&c.Client}, o.Header, opts...)
 	if err != nil {
 		return nil, err
 	}
